@@ -24,7 +24,7 @@ int c_ensrank(double eps, int nval, int ncol, double* sim, \
 {
 	int i1, i2, j, ierr=0, ninit;
 	double value, valueprev, valuenext, index, u=0, F=0;
-    double sumrank, rk, ncold, diff, diffnext;
+    double sumrank, rk, ncold, diff, diffnext, tol;
     double nties, start, end;
     double (*ensemb)[2];
 
@@ -141,8 +141,12 @@ int c_ensrank(double eps, int nval, int ncol, double* sim, \
             F = (sumrank-(ncold+1)*ncold/2)/ncold/ncold;
             fmat[i1*nval+i2] = F;
 
-            /* Compute ranks as per Equation (2) in Weigel and Mason, 2011 */
-            u = F<0.5-1e-8 ? 0. : F>0.5+1e-8 ? 1. : 0.5;
+            /* Compute ranks as per Equation (2) in Weigel and Mason, 2011.
+             * F is a multiple of 1/(2*ncol^2) and is exactly 0.5 for a tie:
+             * the tolerance is half of that step (a fixed 1e-8 turns
+             * comparisons into ties for ensembles of more than 7071 members) */
+            tol = 0.25/ncold/ncold;
+            u = F<0.5-tol ? 0. : F>0.5+tol ? 1. : 0.5;
             ranks[i1] += u;
             ranks[i2] += 1.-u;
         }
